@@ -293,11 +293,12 @@ Proof.
 Qed.
 Print Assumptions C06_route_quaternion.
 
-(* ================================================================ 6. the unit-dual-quaternion route  (✱ defect)
-   FULL STATEMENT (what the property asks; FALSE for the code as it is):
-     forall q t v, |q| = 1 -> tr_UDQ_v q (tr_UDQ_dual q t) v = q2r(q) v + t
-   DualQuaternion.__mul__ computes  left * Pure(v) * left.conj()  where conj() conjugates the two quaternion parts
-   only; the point action needs the dual part negated as well.  With the conjugate used, the translation cancels. *)
+(* ================================================================ 6. the unit-dual-quaternion route
+   DualQuaternion.__mul__ (point branch) computes  left * Pure(v) * DualQuaternion(left.real.conj(), -left.dual.conj())
+   -- the conjugate that also negates the dual unit -- and returns the vector of the dual part.
+   (Before fix 0a28e8d it used left.conj() and the translation cancelled: the statement below was then carried as a
+   _refuted/_partial pair.)  tr_UDQ_v is traced under |q| = 1: products of UnitQuaternions are re-normalised, the sqrt
+   terms are rewritten to 1 under the hypothesis. *)
 Ltac unit_sqrt H :=
   repeat match goal with
          | |- context [sqrt ?x] =>
@@ -305,42 +306,37 @@ Ltac unit_sqrt H :=
            assert (E : x = 1) by (rewrite ?H; lra); rewrite E; clear E; rewrite sqrt_1
          end.
 
-(* whatever the dual part is, the traced product returns the rotated point only *)
-Theorem C06_UDQ_point_ignores_dual_part : forall (q d : V4 R) (v : V3 R), qnormsq Rops q = 1 ->
-  tr_UDQ_v Rops q d v = mv33 Rops (tr_q2r Rops q) v.
-Proof.
-  intros q d v H. destruct_tuples. gen_unfold.
-  unit_sqrt H. tuple_eq ltac:(field_simplify; simpl; nsatz).
-Qed.
-Print Assumptions C06_UDQ_point_ignores_dual_part.
-
 (* the dual part the UnitDualQuaternion(SE3) constructor stores is (1/2) t q *)
 Theorem C06_UDQ_dual_part : forall (q : V4 R) (t : V3 R),
   tr_UDQ_dual Rops q t = vscale4 Rops (1/2) (qmul Rops (qpure Rops t) q).
 Proof. intros; destruct_tuples; gen_unfold; tuple_eq ltac:(field). Qed.
 Print Assumptions C06_UDQ_dual_part.
 
-Theorem C06_UDQ_point_is_rotation_only : forall (q : V4 R) (t v : V3 R), qnormsq Rops q = 1 ->
-  tr_UDQ_v Rops q (tr_UDQ_dual Rops q t) v = mv33 Rops (tr_q2r Rops q) v.
-Proof. intros q t v H. apply C06_UDQ_point_ignores_dual_part; exact H. Qed.
-Print Assumptions C06_UDQ_point_is_rotation_only.
-
-Theorem C06_UDQ_point_refuted : exists (q : V4 R) (t v : V3 R), qnormsq Rops q = 1 /\
-  tr_UDQ_v Rops q (tr_UDQ_dual Rops q t) v <> vadd3 Rops (mv33 Rops (tr_q2r Rops q) v) t.
-Proof.
-  exists (1, 0, 0, 0), (1, 0, 0), (0, 0, 0). split; [gen_unfold; lra|].
-  rewrite C06_UDQ_point_is_rotation_only by (gen_unfold; lra).
-  gen_unfold. intros E. injection E; intros; lra.
-Qed.
-Print Assumptions C06_UDQ_point_refuted.
-
-Theorem C06_UDQ_point_partial : forall (q : V4 R) (t v : V3 R), qnormsq Rops q = 1 -> t = (0, 0, 0) ->
+(* FULL STATEMENT: the unit dual quaternion of the rigid motion (q, t) maps v to q2r(q) v + t *)
+Theorem C06_UDQ_point : forall (q : V4 R) (t v : V3 R), qnormsq Rops q = 1 ->
   tr_UDQ_v Rops q (tr_UDQ_dual Rops q t) v = vadd3 Rops (mv33 Rops (tr_q2r Rops q) v) t.
 Proof.
-  intros q t v H ->. rewrite C06_UDQ_point_is_rotation_only by exact H.
-  generalize (mv33 Rops (tr_q2r Rops q) v). intros w. destruct_tuples. gen_unfold. tuple_eq ltac:(ring).
+  intros q t v H. destruct_tuples. gen_unfold.
+  unit_sqrt H. tuple_eq ltac:(apply (Rmult_eq_reg_l 2); [|lra]; field_simplify; simpl; nsatz).
 Qed.
-Print Assumptions C06_UDQ_point_partial.
+Print Assumptions C06_UDQ_point.
+
+(* dual-quaternion route == homogeneous-matrix route, with R = q2r(q) in SO(3) *)
+Theorem C06_route_dual_quaternion : forall (q : V4 R) (t v : V3 R), qnormsq Rops q = 1 ->
+  SE3 (rt2tr3 Rops (tr_q2r Rops q) t) /\
+  tr_UDQ_v Rops q (tr_UDQ_dual Rops q t) v = tr_SE3_v Rops (rt2tr3 Rops (tr_q2r Rops q) t) v.
+Proof.
+  intros q t v H. destruct (C06_q2r_is_rotation q H) as [_ HR]. split; [apply SE3_rt; exact HR|].
+  rewrite (C06_UDQ_point q t v H).
+  assert (Hh : hom4 (rt2tr3 Rops (tr_q2r Rops q) t)).
+  { generalize (tr_q2r Rops q). intros M. destruct_tuples. unfold hom4. gen_unfold. reflexivity. }
+  rewrite (C06_SE3_point _ _ Hh). generalize (tr_q2r Rops q). intros M. destruct_tuples. gen_unfold. reflexivity.
+Qed.
+Print Assumptions C06_route_dual_quaternion.
+
+(* the translation really is applied (guards against the statement holding only for t = 0) *)
+Example C06_UDQ_point_translates : tr_UDQ_v Rops (1, 0, 0, 0) (tr_UDQ_dual Rops (1, 0, 0, 0) (1, 2, 3)) (0, 0, 0) = (1, 2, 3).
+Proof. rewrite C06_UDQ_point by (gen_unfold; lra). gen_unfold. tuple_eq ltac:(lra). Qed.
 
 (* ================================================================ non-vacuity of the hypotheses *)
 Example C06_nonvacuous_SE3 : SE3 ((3/5, -(4/5), 0, 7), (4/5, 3/5, 0, -2), (0, 0, 1, 1/3), (0, 0, 0, 1)) /\
